@@ -86,5 +86,13 @@ CHECKS['C06'] = dict(category='other',
    note='Assumed: numpy view/copy rules; third-party decode() returns a function of (matrix, current priors, syndrome) and does not modify its arguments; unknown calls do not write their '
         'arguments. UnionFind Support objects and decoders held in containers are not followed by the analysis (bounded only). Level "other": decided statically, not by an SMT proof.',
    technique='frame (assigns) and dependence obligations by abstract interpretation over the AST; reused-vs-fresh decoder run-time contract')
+CHECKS['C05'] = dict(category='other',
+   text='Deductive part: constructors and decode() of MatchingDecoder (all error_type / weights variants), UnionFindDecoder, BeliefPropagationOSDDecoder (CSS, non-CSS, channel update) and both '
+        'sweep-match decoders are executed symbolically against sector-typed stand-ins of PyMatching / ldpc / Support: 13 obligations pin which parity-check block, which weight or prior '
+        'vector (incl. the values p_x+p_y / p_z+p_y and the conditional update), which syndrome block and which output half go together, output length 2n, and allowed_codes sanity. '
+        'Together with the ASSUMED completeness of the third-party decoders this yields syndrome reproduction. Validity on real objects (construct, no raise, shape, binary, syndrome '
+        'reproduced, trivial->trivial) over every decoder x allowed codes x random-error syndromes is a bounded run-time contract; known findings F-C05-b/c are listed.',
+   note='Assumed, not proved: PyMatching / ldpc / union-find Support return a solution of H c = s. Union-find internals (uf_support.py) are not analysed at all. Level "other".',
+   technique='symbolic execution of the real wiring code against typed stand-ins of third-party decoders; z3 for the array/prior identities; run-time contracts')
 _PENDING = 'check under construction in this session (contract-based check planned in DESIGN.md section 3); not claimed until its command exists'
 NOT_APPLICABLE = {p: _PENDING for p in ['C%02d' % i for i in range(1, 21)]}
